@@ -76,4 +76,3 @@ func vfhC08TWKBHeaders() {
 	}
 	vfReach("end")
 }
-
